@@ -355,6 +355,22 @@ theorem shortItem_wf {w : Wire} {o : Option Bytes} (hwf : w.wf = true)
   · simp only [Wire.wf] at hwf
     simpa [shortItem, Wire.wf] using Reencode.shortest_fits (Reencode.fits_lt hwf)
 
+theorem shortest_head_le {w : HW} {n : Nat} (m : Nat) (hf : w.fits n = true) :
+    (headBytes m (HW.shortest n) n).length ≤ (headBytes m w n).length := by
+  unfold HW.shortest
+  cases w <;> simp only [HW.fits, decide_eq_true_eq] at hf <;>
+    (repeat' split) <;> simp only [headBytes, List.length_cons, List.length_nil] <;> omega
+
+/-- the encoder never lengthens a `byteString` item -/
+theorem shortItem_length_le {w : Wire} {o : Option Bytes} (hwf : w.wf = true)
+    (hd : decByteString w = .ok o) : (shortItem o).bytes.length ≤ w.bytes.length := by
+  rcases Reencode.decByteString_ok hd with ⟨rfl, rfl⟩ | ⟨hw, c, rfl, rfl⟩
+  · exact Nat.le_refl _
+  · simp only [Wire.wf] at hwf
+    have := shortest_head_le 2 hwf
+    simp only [shortItem, Wire.bytes, List.length_append]
+    omega
+
 /-- a non-empty `byteString` field is `some s`, and the encoder emits it as `shortItem` -/
 theorem sig_some {o : Option Bytes} (hz : blen o ≠ 0) :
     ∃ s, o = some s ∧ encBstr (o.getD []) = (shortItem o).bytes := by
@@ -485,11 +501,11 @@ theorem unmarshal_marshal_tree {tagged : Bool} {m : Sign1Msg} {p u pl sg : Wire}
   have hwf' : (Wire.arr .imm [p, u, shortItem m.payload, shortItem m.sig]).wf = true := by
     simp only [Wire.wf, Wire.wfList, Bool.and_eq_true] at hwf ⊢
     exact ⟨hwf.1, hwf.2.1, hwf.2.2.1, shortItem_wf hwf.2.2.2.1 hpl, shortItem_wf hwf.2.2.2.2.1 hsg,
-      rfl⟩
+      trivial⟩
   have hlim' : (Wire.arr .imm [p, u, shortItem m.payload, shortItem m.sig]).inLimits false 0
       = true := by
     simp only [Wire.inLimits, Wire.inLimitsList, Bool.and_eq_true] at hlim ⊢
-    exact ⟨hlim.1, hlim.2.1, hlim.2.2.1, shortItem_inLimits _ _, shortItem_inLimits _ _, rfl⟩
+    exact ⟨hlim.1, hlim.2.1, hlim.2.2.1, shortItem_inLimits _ _, shortItem_inLimits _ _, trivial⟩
   have hpt := parseTop_complete hwf' hlim'
   have h84 : (Wire.arr .imm [p, u, shortItem m.payload, shortItem m.sig]).bytes
       = 0x84 :: (p.bytes ++ (u.bytes ++ (optBytesEnc m.payload ++ encBstr (m.sig.getD [])))) :=
@@ -517,6 +533,16 @@ theorem reencode_roundtrip (tagged : Bool) (b : Bytes) (m : Sign1Msg)
     (hm : GoVal.modelledPairs m.h.p = true ∧ GoVal.modelledPairs m.h.u = true) :
     ∃ b1, Sign1.marshal tagged m = .ok b1 ∧ Sign1.unmarshal tagged b1 = .ok m ∧
       b1.length ≤ b.length := by
-  sorry
+  obtain ⟨p, u, pl, sg, hb, -, hwf, hlim, hpl, hsg, hz, hh⟩ := sign1_envelope_full hd
+  have h1 := marshal_of_decoded (tagged := tagged) hh hz hm
+  rw [marshal_tree_bytes p u m.payload m.sig hz] at h1
+  refine ⟨_, h1, unmarshal_marshal_tree hwf hlim hpl hsg hz hh, ?_⟩
+  simp only [Wire.wf, Wire.wfList, Bool.and_eq_true] at hwf
+  have l1 := shortItem_length_le hwf.2.2.2.1 hpl
+  have l2 := shortItem_length_le hwf.2.2.2.2.1 hsg
+  rw [hb]
+  simp only [Wire.bytes, Wire.bytesList, headBytes, List.length_append, List.length_cons,
+    List.length_nil]
+  omega
 
 end C09
